@@ -34,6 +34,8 @@ def families(tier, seed):
         out.append(dict(name=f'C16 synonyms, comments, flatten-then-parse part {i}', run=pc.synonyms(seed * 1000 + 500 + i, n), label='bounded'))
     for i in range(parts // 2):
         out.append(dict(name=f'C16 split_gr1 part {i}', run=pc.split_family(seed * 1000 + 700 + i, n), label='bounded'))
+    from contracts import optdiff as _od
+    out.append(dict(name='same results with assert statements stripped (python -O), section C16', run=_od.family('C16'), label='bounded'))
     return out
 
 
